@@ -41,7 +41,7 @@ GROUPS = {
     "beat": [("events", {}), ("events", {}), ("events", {})],
     "segment": [("segments", {}), ("segments", {}), ("segments", {"span": "longer"}), ("segments", {"span": "shorter"}), ("segments", {"span": "late"})],
     "chord": [("chords", {}), ("chords", {}), ("chords", {"span": "longer"}), ("chords", {"span": "late"}), ("chordlabels", {}), ("chordlabels", {})],
-    "hier": [("hier", {}), ("hier", {})],
+    "hier": [("hier", {}), ("hier", {}), ("hier", {})],
     "melody": [("melody", {}), ("melody", {}), ("melody", {})],
     "multipitch": [("multipitch", {}), ("multipitch", {})],
     "notes": [("notes", {}), ("notes", {}), ("notes", {})],
@@ -528,15 +528,30 @@ def execute(plan, want_logs=False):
 # systematic walks: every abort point of one call, every single-switch interleaving of two calls
 # --------------------------------------------------------------------------------------
 WALK_CAP = 250
+WALK_CAP_HEAVY = {"separation": 8, "sonify": 24, "hierarchy": 40}
 WALK_OPS = {"quick": 320, "thorough": 8000}
 
 
 def gen_walk_plan(rng, tier, i):
     base = gen_plan(rng, tier, i + 10 ** 6)
+    if i % 4 == 3:
+        # heavy walks: every heavy template the pool allows becomes a candidate (a campaign plan holds at most two)
+        chooser = ops.Chooser(rng, base["specs"])
+        for name in sorted(ops.HEAVY):
+            inst = ops.applicable(name, chooser) if name in ops.CATALOG else []
+            for a_, k_ in inst[:1]:
+                base["ops"].append({"fn": name, "args": a_, "kwargs": k_})
     light = [j for j, o in enumerate(base["ops"]) if o["fn"] not in ops.HEAVY]
+    heavy = [j for j, o in enumerate(base["ops"]) if o["fn"] in ops.HEAVY]
     if len(light) < 2:
         light = list(range(len(base["ops"])))
-    a = rng.choice(light)
+    if heavy and i % 4 == 3:
+        # one walk in four is over a numerically heavy call (sonify / hierarchy / separation), with a lower cap on
+        # the number of points; its partner may be heavy too
+        a = rng.choice(heavy)
+        light = light + heavy
+    else:
+        a = rng.choice(light)
     # prefer a partner that shares a pool object with A
     ra = set((r.b, r.f) for r in refs_of(base["ops"][a]))
     sharing = [j for j in light if j != a and ra & set((r.b, r.f) for r in refs_of(base["ops"][j]))]
@@ -593,7 +608,18 @@ def _execute_walk(plan, want_logs):
     seams.WARN.install()
     specs = _specs_for(plan, [a, b])
     E = _count_events(plan, a, fns, prefix)
-    ks = list(range(1, min(E, WALK_CAP) + 1)) if w.get("only_k") is None else [w["only_k"]]
+    # number of walked points per call: a fixed table by cost class (never wall time: the set of points is part
+    # of the execution and must be the same on a slow and on a fast machine)
+    cap = WALK_CAP if opa["fn"] not in ops.HEAVY else WALK_CAP_HEAVY.get(opa["fn"].split(".")[0], 40)
+    if opb["fn"].startswith("separation.") and not opa["fn"].startswith("separation."):
+        cap = min(cap, 20)
+    if E > cap and w.get("only_k") is None:
+        # more line events than the cap: spread the points over the whole call instead of taking the first ones
+        ks = sorted(set(1 + (q * (E - 1)) // (cap - 1) for q in range(cap)))
+    else:
+        ks = list(range(1, E + 1))
+    if w.get("only_k") is not None:
+        ks = [w["only_k"]]
     ls0 = lib_state()
     for k in ks:
         pool = build_pool(specs)
